@@ -378,7 +378,8 @@ inductive DynField
   | protoattr   -- attributes of `prototype` ("absent" without one)
   | ctor        -- "self|<attrs>" when prototype.constructor is the function itself
   | enumown     -- number of enumerable own properties
-  | callerdesc  -- "ok" when Object.getOwnPropertyDescriptor(f, "caller") completes (with any result or a JavaScript exception)
+  | callerdesc  -- "ok" when Object.getOwnPropertyDescriptor(f, "caller") is undefined or a well-formed, non-enumerable §8.10.4 descriptor
+  | stackdesc   -- the same for Object.getOwnPropertyDescriptor(new Error("m"), "stack")   (independent of the function)
   deriving DecidableEq, Repr
 
 /-- §15.3.4.5 step 15: length = max(0, L − n) for a bound function; §13.2 step 15: the number of formal parameters -/
@@ -395,7 +396,10 @@ def dyn (k : DynKind) (L n : Nat) : DynField → String
   | .protoattr => if k = .bound then "absent" else "w--"
   | .ctor => if k = .bound then "absent" else "self|w-c"
   | .enumown => "0"
+  -- ES5 gives non-strict functions no `caller` and errors no `stack`; as extensions (§16) they must be reported by
+  -- [[GetOwnProperty]]/FromPropertyDescriptor (§8.10.4) as a complete descriptor, and be non-enumerable
   | .callerdesc => "ok"
+  | .stackdesc => "ok"
 
 /-- A property that ES5 does not list (an implementation extension, §16 allows them) must at least be
     non-enumerable, or for-in over built-ins would show it. -/
